@@ -99,7 +99,19 @@ var stringPool = []string{"", "a", "hello", "ünï cødé", "with \"quotes\"", "
 
 func runeLen(s string) int { return len([]rune(s)) }
 
+// formatSamples: valid values of the string formats the generator uses.
+var formatSamples = map[string][]string{
+	"date":  {"2024-01-15", "1999-12-31", "2020-02-29"},
+	"uuid":  {"123e4567-e89b-12d3-a456-426614174000", "00000000-0000-0000-0000-000000000000"},
+	"email": {"a@example.org", "first.last@sub.example.com"},
+	"time":  {"03:04:05Z", "23:59:59+01:00"},
+}
+
 func (g *docGen) str(t T) string {
+	if samples, ok := formatSamples[t.Format]; ok {
+		g.feats["string_format:"+t.Format] = true
+		return rapid.SampledFrom(samples).Draw(g.t, "formatted")
+	}
 	lo, hi := 0, 1<<30
 	if t.MinLen != nil {
 		lo = *t.MinLen
